@@ -1,6 +1,7 @@
 /-
 Model/Mesh.lean — combinatorial status checks of TriangularMesh (C16) over face index triples:
-`get_open_edges` and `get_disconnected_faces_subsets` of field_BH_triangularmesh.py.
+`get_open_edges`, `get_disconnected_faces_subsets`, and the edge-propagation sweep of `get_inwards_mask` /
+`fix_trimesh_orientation` (the seed's ray test `is_facet_inwards` is a parameter) of field_BH_triangularmesh.py.
 -/
 namespace MagpyVerif.Mesh
 
@@ -23,15 +24,24 @@ def openEdges (faces : List Face) : List Edge :=
 /-- vertices of a face as a list -/
 def verts (f : Face) : List Nat := [f.1, f.2.1, f.2.2]
 
+/-- body of `for r in rest:` — `if len(first.intersection(set(r))) > 0: first |= set(r) else: rest2.append(r)`;
+`acc = (first, rest2)`; `first` is a Python set, kept here as a duplicate-free list in order of insertion -/
+def sweepStep (acc : List Nat × List Face) (r : Face) : List Nat × List Face :=
+  if (verts r).any (fun v => acc.1.contains v) then
+    (acc.1 ++ ((verts r).filter (fun v => !acc.1.contains v)).eraseDups, acc.2)
+  else (acc.1, acc.2 ++ [r])
+
+/-- one pass of the `for r in rest` loop, starting with `rest2 = []` -/
+def sweep (first : List Nat) (rest : List Face) : List Nat × List Face :=
+  rest.foldl sweepStep (first, [])
+
 /-- inner `while len(first) > lf` loop: absorb every remaining face sharing a vertex with `first`,
-until nothing changes; returns (vertex set, faces not absorbed) -/
+until a pass does not enlarge `first`; returns (vertex set, faces not absorbed) -/
 def absorb : Nat → List Nat → List Face → List Nat × List Face
   | 0, first, rest => (first, rest)
   | fuel + 1, first, rest =>
-    let step := rest.foldl (fun (acc : List Nat × List Face) r =>
-      if (verts r).any (fun v => acc.1.contains v) then (acc.1 ++ (verts r).filter (fun v => !acc.1.contains v), acc.2)
-      else (acc.1, acc.2 ++ [r])) (first, [])
-    if step.1.length > first.length then absorb fuel step.1 step.2 else (step.1, step.2)
+    let step := sweep first rest
+    if step.1.length > first.length then absorb fuel step.1 step.2 else step
 
 /-- `get_disconnected_faces_subsets`: vertex sets of the connected parts, in order of discovery -/
 def subsets : Nat → List Face → List (List Nat)
@@ -40,5 +50,71 @@ def subsets : Nat → List Face → List (List Nat)
   | fuel + 1, f :: rest =>
     let r := absorb (3 * (rest.length + 1) + 1) (verts f).eraseDups rest
     r.1 :: subsets fuel r.2
+
+/-! ### `get_inwards_mask` / `fix_trimesh_orientation` over face index triples -/
+
+/-- `edges = {(tri[0], tri[1]), (tri[1], tri[2]), (tri[2], tri[0])}` : the edges in the direction the face traverses them -/
+def dirEdges (f : Face) : List Edge := [(f.1, f.2.1), (f.2.1, f.2.2), (f.2.2, f.1)]
+
+/-- `edges_r = {(tri[1], tri[0]), (tri[2], tri[1]), (tri[0], tri[2])}` -/
+def dirEdgesR (f : Face) : List Edge := [(f.2.1, f.1), (f.2.2, f.2.1), (f.1, f.2.2)]
+
+/-- `free_edges ^ edges` (Python sets, kept as lists; only membership and emptiness are ever used) -/
+def symmDiff (free es : List Edge) : List Edge :=
+  free.filter (fun e => !es.contains e) ++ es.eraseDups.filter (fun e => !free.contains e)
+
+/-- the `for tri_ind in indices:` scan up to its `break`: the first remaining face that has an edge in common with
+`free_edges` (any face if `free_edges` is empty); returns (tri_ind, flip, free_edges ^ edges); `none` = the `else:` of the for -/
+def scan (tris : List Face) (free : List Edge) : List Nat → Option (Nat × Bool × List Edge)
+  | [] => none
+  | i :: is =>
+    let tri := tris.getD i (0, 0, 0)
+    if free.isEmpty then some (i, false, symmDiff free (dirEdges tri))
+    else if (dirEdges tri).any (fun e => free.contains e) then some (i, true, symmDiff free (dirEdgesR tri))
+    else if (dirEdgesR tri).any (fun e => free.contains e) then some (i, false, symmDiff free (dirEdges tri))
+    else scan tris free is
+
+/-- local variables of `get_inwards_mask` -/
+structure OrientSt where
+  mask : List Bool
+  indices : List Nat
+  free : List Edge
+  anyConnected : Bool
+
+/-- `mask[indices] = v` -/
+def setAt (mask : List Bool) (indices : List Nat) (v : Bool) : List Bool :=
+  mask.mapIdx (fun k b => if indices.contains k then v else b)
+
+/-- `mask[i] = not mask[i]` -/
+def toggleAt (mask : List Bool) (i : Nat) : List Bool :=
+  mask.mapIdx (fun k b => if k == i then !b else b)
+
+/-- body of the `while indices:` loop; `seed indices` stands for `is_facet_inwards(msh[indices[0]], msh[indices])` -/
+def orientStep (seed : List Nat → Bool) (tris : List Face) (st : OrientSt) : OrientSt :=
+  let st1 : OrientSt := if st.anyConnected then st else
+    { st with free := [], mask := setAt st.mask st.indices (seed st.indices) }
+  match scan tris st1.free st1.indices with
+  | some (i, flip, free') =>
+    { mask := if flip then toggleAt st1.mask i else st1.mask, indices := st1.indices.erase i, free := free', anyConnected := true }
+  | none => { st1 with anyConnected := false }
+
+/-- the `while indices:` loop -/
+def orientLoop (seed : List Nat → Bool) (tris : List Face) : Nat → OrientSt → OrientSt
+  | 0, st => st
+  | fuel + 1, st => if st.indices.isEmpty then st else orientLoop seed tris fuel (orientStep seed tris st)
+
+def orientInit (tris : List Face) : OrientSt :=
+  { mask := List.replicate tris.length false, indices := List.range tris.length, free := [], anyConnected := false }
+
+/-- `get_inwards_mask` (True = the face is to be flipped) -/
+def inwardsMask (seed : List Nat → Bool) (tris : List Face) : List Bool :=
+  (orientLoop seed tris (2 * tris.length + 1) (orientInit tris)).mask
+
+/-- `new_faces[mask][:, [0, 2, 1]]` -/
+def flipFace (f : Face) : Face := (f.1, f.2.2, f.2.1)
+
+/-- `fix_trimesh_orientation` -/
+def fixOrientation (seed : List Nat → Bool) (tris : List Face) : List Face :=
+  List.zipWith (fun f b => if b then flipFace f else f) tris (inwardsMask seed tris)
 
 end MagpyVerif.Mesh
